@@ -150,6 +150,8 @@ func (g *GenCfg) genOp(t *rapid.T) Op {
 		}
 	case "remN":
 		op.D = rapid.SampledFrom([]int{0, 0, 2, 3}).Draw(t, "dir")
+	case "drop":
+		op.D = rapid.IntRange(0, 1).Draw(t, "blind")
 	}
 	if k == "mset" && rapid.IntRange(0, 3).Draw(t, "upd") == 0 {
 		op.A = 3 // update a present key
